@@ -119,17 +119,17 @@ theorem next_full (r : Reader) (s t : Bytes) (h : r.rest = s ++ t) :
   · have hpos : 0 < s.length := List.length_pos_iff.mpr hs
     have : ¬ ((s.length : Int) ≤ 0) := by omega
     simp only [this, if_false]
-    have hlen : r.pos + s.length ≤ r.data.length := by
+    have hlen : r.pos + s.length ≤ r.data.size := by
       have := congrArg List.length h
       simp [Reader.rest] at this
       omega
     simp only [Reader.remaining, Int.toNat_natCast, Reader.adv]
-    have e1 : r.data.length - (r.data.length - r.pos) = r.pos := by omega
-    have e2 : r.data.length - (r.data.length - (r.pos + s.length)) = r.pos + s.length := by omega
+    have e1 : r.data.size - (r.data.size - r.pos) = r.pos := by omega
+    have e2 : r.data.size - (r.data.size - (r.pos + s.length)) = r.pos + s.length := by omega
     rw [e1, e2]
     congr 1
     unfold Reader.rest at h
-    rw [List.drop_take]
+    rw [takeFrom_eq]
     have : r.pos + s.length - r.pos = s.length := by omega
     rw [this, h]
     simp
